@@ -7,5 +7,5 @@ CONSTANTS
   Masters = {0, 1}
   Shapes = {"col2", "row2", "block"}
   SiPairs = {0, 1, 2, 3, 4}
-INVARIANTS Refines Dump
+INVARIANTS Compositional Refines Dump
 CHECK_DEADLOCK FALSE
